@@ -79,6 +79,7 @@ MUTS={
             return HTTPStatus.PRECONDITION_FAILED""", """            or "SID" not in headers
         ):
             return HTTPStatus.BAD_REQUEST""")),
+ "C10-M6-first-duplicate-wins": ("C10", lambda: rep(EH, """                changes[name] = value""", """                changes.setdefault(name, value)""")),
  "C11-M1-replay-newest-only": ("C11", lambda: rep(EH, "for item in self._backlog[sid]:", "for item in self._backlog[sid][-1:]:")),
  "C11-M2-delete-before-replay": ("C11", lambda: rep(EH, """            for item in self._backlog[sid]:
                 await self.handle_notify(item[0], item[1])
